@@ -615,6 +615,9 @@ func execC17(body json.RawMessage) *kernel.Result {
 				text = fmt.Sprintf("(aset (hget %s %s:) 0 %s)", target, op.Field, src)
 			case "elemidx":
 				text = fmt.Sprintf("{%s.%s[0] = %s}", target, op.Field, src)
+			case "elemptr":
+				// the whole array replaced through a pointer to the value the field holds
+				text = fmt.Sprintf("(derefSet (& (hget %s %s:)) [%s %s])", target, op.Field, src, src)
 			default:
 				text = fmt.Sprintf("(hset %s %s: %s)", target, op.Field, src)
 			}
@@ -628,7 +631,7 @@ func execC17(body json.RawMessage) *kernel.Result {
 			if op.Route == "strkey" {
 				declared = false // fields are named by symbols; a string key names no declared field
 			}
-			if op.Route == "elem" || op.Route == "elemidx" {
+			if op.Route == "elem" || op.Route == "elemidx" || op.Route == "elemptr" {
 				// judged by the invariant check only (the element either fits the slice or the write is refused)
 				t, declared = "", false
 			}
@@ -911,7 +914,7 @@ func genC17(r *kernel.RNG, tier string, i int) interface{} {
 			}
 			op.Route = r.Pick([]string{"hset", "dot", "infix", "index", "hset", "strkey"})
 			if strings.HasPrefix(f.Type, "[]") && op.Field == f.Name && r.Chance(0.25) {
-				op.Route = r.Pick([]string{"elem", "elemidx"})
+				op.Route = r.Pick([]string{"elem", "elemidx", "elemptr"})
 				op.Kind = r.Pick([]string{"int", "string", "float", "nil", "int", "string"})
 			}
 			if op.Op == "write" {
